@@ -358,7 +358,10 @@ def read_headers(sock: socket.socket) -> tuple:
             status_info = line.split(" ", 2)
             if len(status_info) < 2:
                 raise WebSocketException(f"Invalid status line: {line}")
-            status = int(status_info[1])
+            try:
+                status = int(status_info[1])
+            except ValueError:
+                raise WebSocketException(f"Invalid status line: {line}")
             if len(status_info) > 2:
                 status_message = status_info[2]
         else:
